@@ -44,3 +44,21 @@ Definition check_trace := mismatches trace_ok.
 (* ---- the packet transcript of one real `esbuild --service` process ---- *)
 From V Require Import C20.ServiceSpec.
 Definition check_svc := mismatches svc_trace_ok.
+
+(* ---- watch mode on real histories: the builds that start while no client
+   Rebuild is pending (started by the watcher goroutine or by Watch's first
+   build) are projected to the vocabulary of the watch model and must satisfy
+   its trace specification, with one extra build allowed for the unconditional
+   first watch-mode build (which the watch model does not contain) ---- *)
+From V Require Import C20.WatchServe.
+Fixpoint wproj_go (pending : nat) (h : list label) : list wlabel :=
+  match h with
+  | [] => []
+  | LEdit :: r => WEdit :: wproj_go pending r
+  | LCall _ OpRebuild :: r => wproj_go (S pending) r
+  | LRet _ OpRebuild _ :: r => wproj_go (pred pending) r
+  | LStart b :: r => match pending with O => WBuild b :: wproj_go pending r | _ => wproj_go pending r end
+  | _ :: r => wproj_go pending r
+  end.
+Definition watch_hist_ok (h : list label) : bool := wtrace_ok 1 (wproj_go 0 h).
+Definition check_watch := mismatches watch_hist_ok.
